@@ -179,3 +179,25 @@ def body_graph(sel: int) -> bool:
         if err:
             return fail(err)
     return True
+
+
+# ---- every EvtGen name as a cell: structure + acceptance by Graphviz -----------------------------------------------------------
+def _evt_names():
+    from particle.converters import EvtGenName2PDGIDBiMap
+    return sorted(str(k) for k in EvtGenName2PDGIDBiMap._to_map)
+
+
+EVT = _evt_names()
+CHUNK = 24
+N_NAMES = (len(EVT) + CHUNK - 1) // CHUNK
+
+
+def body_names(sel: int) -> bool:
+    import shutil
+    names = EVT[sel * CHUNK:(sel + 1) * CHUNK]
+    half = len(names) // 2
+    sub = {names[0]: [{"bf": 0.25, "fs": names[1:half] or ["gamma"], "model": "PHSP", "model_params": ""}]}
+    chain = {"Upsilon(4S)": [{"bf": 0.5, "fs": [sub] + names[half:], "model": "PHSP", "model_params": ""},
+                             {"bf": 1e-05, "fs": list(reversed(names[half:])), "model": "", "model_params": ""}]}
+    err = check_chain(chain, run_dot=shutil.which("dot") is not None)
+    return err is None or fail(err)
